@@ -70,6 +70,20 @@ impl ResourceNode {
     }
 }
 
+/// Verification hook (only with `--cfg sentinel_verif`).
+#[cfg(sentinel_verif)]
+impl ResourceNode {
+    /// (sample_count_total, interval_ms_total, sample_count, interval_ms) actually in effect.
+    pub fn verif_geometry(&self) -> (u32, u32, u32, u32) {
+        (
+            self.arr.sample_count(),
+            self.arr.interval_ms(),
+            self.metric.sample_count(),
+            self.metric.interval_ms(),
+        )
+    }
+}
+
 impl MetricItemRetriever for ResourceNode {
     fn metrics_on_condition(&self, predicate: &TimePredicate) -> Vec<MetricItem> {
         self.metric.second_metrics_on_condition(predicate)
